@@ -67,9 +67,37 @@ maybe_short(int fd, size_t n)
 	return n;
 }
 
+/* VERIF_DISKFULL=k:how -- the disk fills up during the k-th write of more than one byte: that write completes partly
+ * (as above) and every later write to a file fails with ENOSPC */
+static int
+disk_full(int fd, size_t *n)
+{
+	static int cnt, k = -1, how, full;
+	if (k < 0) {
+		const char *e = getenv("VERIF_DISKFULL");
+		k = 0;
+		if (e)
+			sscanf(e, "%d:%d", &k, &how);
+	}
+	if (k <= 0 || fd <= 2)
+		return 0;
+	if (full) {
+		errno = ENOSPC;
+		return -1;
+	}
+	if (*n > 1 && __atomic_add_fetch(&cnt, 1, __ATOMIC_SEQ_CST) == k) {
+		*n = how == 1 ? 1 : (how == 2 ? *n / 2 : *n - 1);
+		full = 1;
+		syscall(SYS_write, -1, "VERIF-DISKFULL", 14);
+	}
+	return 0;
+}
+
 ssize_t
 write(int fd, const void *b, size_t n)
 {
+	if (disk_full(fd, &n) != 0)
+		return -1;
 	return (ssize_t) syscall(SYS_write, fd, b, maybe_short(fd, n));
 }
 
@@ -242,6 +270,11 @@ do_op(struct worker *w, const char *op)
 		static char big[6001];
 		memset(big, 'm', sizeof(big) - 1);
 		ovni_attr_set_str("verif.big", big);
+	} else if (strcmp(op, "cd") == 0) {
+		/* the program changes its working directory (nothing the tracing protocol forbids) */
+		mkdir("elsewhere", 0755);
+		if (chdir("elsewhere") != 0)
+			_exit(3);
 	} else if (strcmp(op, "as") == 0) {
 		ovni_attr_set_double("verif.counter", (double) w->seq);
 	} else if (strcmp(op, "free") == 0) {
